@@ -1,6 +1,6 @@
 (** C14 -- executable comparison of an observed run (implementation on DuckDB, or PySpark recording) with the
     model and the spec.  Used by checks/c14.py through vm_compute; nothing here is a proof obligation. *)
-From SF Require Import Base.Val C14.Writer.
+From SF Require Import Base.Val C14.Writer C14.WriterProof C14.Views.
 Open Scope string_scope.
 Open Scope nat_scope.
 
@@ -46,13 +46,18 @@ Definition tabs_match (impl model : tables) : bool :=
   && forallb (fun kv => match alookup (fst kv) model with Some t => tbl_match (snd kv) t | None => false end) impl.
 Definition files_match (impl : list (string * bool)) (model : files) : bool :=
   forallb (fun kv => Bool.eqb (snd kv) (ahas (fst kv) model)) impl.
-Definition cat_match (impl : list (string * (bool * schema * bool))) (listed : list string) (model : tables) : bool :=
-  set_eqb listed (akeys model)
+Definition obs_cols (o : option obs) : schema := match o with Some (OCols c) => c | _ => [] end.
+Definition obs_true (o : option obs) : bool := match o with Some (OBool b) => b | Some OOk => true | _ => false end.
+(** the catalog API's answers right after the step, against what model / spec say it answers (views included) *)
+Definition cat_match (impl : list (string * (bool * schema * bool))) (listed : list string)
+           (model : tables) (vs : views) : bool :=
+  set_eqb listed (akeys model ++ akeys vs)
   && forallb (fun kv => let '(ex, cols, got) := snd kv in
-                        Bool.eqb ex (ahas (fst kv) model) && Bool.eqb got (ahas (fst kv) model)
-                        && schema_eqb cols (match alookup (fst kv) model with Some t => t_cols t | None => [] end)) impl.
-Definition snap_match (s : snap) (tabs : tables) (fs : files) : bool :=
-  tabs_match (sn_tabs s) tabs && files_match (sn_files s) fs && cat_match (sn_cat s) (sn_list s) tabs.
+                        Bool.eqb ex (obs_true (view_obs model vs (OpExists (fst kv))))
+                        && Bool.eqb got (obs_true (view_obs model vs (OpGet (fst kv))))
+                        && schema_eqb cols (obs_cols (view_obs model vs (OpCols (fst kv))))) impl.
+Definition snap_match (s : snap) (tabs : tables) (fs : files) (vs : views) : bool :=
+  tabs_match (sn_tabs s) tabs && files_match (sn_files s) fs && cat_match (sn_cat s) (sn_list s) tabs vs.
 
 Record case := mkCase { c_ops : list op; c_obs : list obs; c_snaps : list snap }.
 
@@ -117,30 +122,57 @@ Definition faithful_ok (c : cfg) (m : mstate) (o : op) : bool :=
   | _ => true
   end.
 
+Record xcase := mkXCase { x_ops : list xop; x_obs : list obs; x_snaps : list snap }.
+
+(** an insert (insertInto, or saveAsTable in append mode) into a name that is also a temporary view is outside the
+    property and outside model and spec: PySpark refuses it (the view is resolved first), sqlframe inserts into the table
+    positionally but fails on byName (the view's untyped columns are looked up) *)
+Definition insert_under_view (vs : views) (o : op) : bool :=
+  match o with
+  | OpInsert n _ _ => ahas n vs
+  | OpSave n a s _ => is_append (eff_mode a s) && ahas n vs
+  | _ => false
+  end.
+Definition x_judge_ok (s : sstate * views) (xo : xop) : bool :=
+  match xo with
+  | XOp o => judge_ok (fst s) o && negb (insert_under_view (snd s) o)
+  | XTempView n t => ident_ok n && tbl_wfb t
+  | XGuardedSave n d => ident_ok n && df_ok d
+  | XForeign n => ident_ok n
+  end.
+Definition x_faithful_ok (c : cfg) (m : mstate * views) (xo : xop) : bool :=
+  match xo with
+  | XOp o => faithful_ok c (fst m) o && negb (insert_under_view (snd m) o)
+  | XTempView n t => ident_ok n && tbl_wfb t
+  | XGuardedSave n d => ident_ok n && df_ok d
+  | XForeign n => ident_ok n
+  end.
+
 (** per step eight characters:
     impl obs = model obs | impl snapshot = model state | impl obs = spec obs | impl snapshot = spec state |
     step in the theorem's domain | model = spec on this step (observation and abstract state) |
     step may be judged against the spec | step inside the model's exact region *)
-Fixpoint walk (c : cfg) (residue : residue_fn) (m : mstate) (s : sstate)
-         (ops : list op) (io : list obs) (sn : list snap) : string :=
+Fixpoint walk (c : cfg) (residue : residue_fn) (m : mstate * views) (s : sstate * views)
+         (ops : list xop) (io : list obs) (sn : list snap) : string :=
   match ops, io, sn with
   | o :: ops', i :: io', n :: sn' =>
-      let ok := step_ok c residue m o in
-      let '(m', mo) := m_step c residue m o in
-      let '(s', so) := s_step s o in
-      bit (obs_match i mo) ++ bit (snap_match n (m_tabs m') (m_files m'))
-      ++ bit (obs_match i so) ++ bit (snap_match n (s_tabs s') (s_files s'))
+      let ok := x_step_ok c residue m o in
+      let '(m', mo) := x_m_step c residue m o in
+      let '(s', so) := x_s_step s o in
+      bit (obs_match i mo) ++ bit (snap_match n (m_tabs (fst m')) (m_files (fst m')) (snd m'))
+      ++ bit (obs_match i so) ++ bit (snap_match n (s_tabs (fst s')) (s_files (fst s')) (snd s'))
       ++ bit ok
-      ++ bit (obs_match mo so && tabs_match (m_tabs m') (s_tabs s')
-              && list_eqb (fun a b => String.eqb (fst a) (fst b) && content_eqb (snd a) (snd b)) (m_files m') (s_files s'))
-      ++ bit (judge_ok s o)
-      ++ bit (faithful_ok c m o)
+      ++ bit (obs_match mo so && tabs_match (m_tabs (fst m')) (s_tabs (fst s'))
+              && list_eqb (fun a b => String.eqb (fst a) (fst b) && content_eqb (snd a) (snd b))
+                          (m_files (fst m')) (s_files (fst s')))
+      ++ bit (x_judge_ok s o)
+      ++ bit (x_faithful_ok c m o)
       ++ walk c residue m' s' ops' io' sn'
   | _, _, _ => ""
   end.
 
-Definition check (c : cfg) (k : case) : string :=
-  walk c duckdb_residue m_init s_init (c_ops k) (c_obs k) (c_snaps k).
+Definition check (c : cfg) (k : xcase) : string :=
+  walk c duckdb_residue (m_init, []) (s_init, []) (x_ops k) (x_obs k) (x_snaps k).
 
 (** spec conformance: a PySpark recording against the spec alone (one character per step) *)
 Fixpoint walk_spec (s : sstate) (ops : list op) (io : list obs) : string :=
